@@ -206,12 +206,12 @@ def run(ctx):
     d = ctx.stage("DataRepo")
     exe = ctx.harness("dr_replay", ["harness/datarepo/dr_replay.c"])
     scen = [dict(sc) for sc in SCENARIOS]
-    for k in range(3 if ctx.quick else 16):
+    for k in range(3 if ctx.quick else 10):
         scen.append(random_scenario(ctx.rng, "rnd%d" % k))
     for sc in scen + STRESS:
         check_contract(sc["threads"])
     byname = {sc["name"]: sc for sc in scen}
-    path_limit = 3000 if ctx.quick else 300000
+    path_limit = 3000 if ctx.quick else 20000
 
     def account(mod, cfg, r, **kw):
         ctx.states += r.distinct
@@ -283,12 +283,12 @@ def run(ctx):
         # exhaustive exploration on the code.  Not for three-thread random programs: two threads waiting (spinning) for a
         # create of the third can wake each other for ever under the scheduler's lowest-eligible-thread default.
         if len(sc["threads"]) <= 2 or not sc["name"].startswith("rnd"):
-            metas = collect(ctx, exe, "explore", sc, str(6000 if ctx.quick else 500000), "explore", executions, timeout=1500)
+            metas = collect(ctx, exe, "explore", sc, str(6000 if ctx.quick else 20000), "explore", executions, timeout=1500)
             last = metas[-1] if metas else {}
             info.update({"code_interleavings": last.get("explored"), "code_exhaustive": last.get("exhaustive")})
         ctx.extra.setdefault("scenarios", []).append(info)
     for sc in STRESS + [byname["twocreators"], byname["racecreate"]]:
-        collect(ctx, exe, "stress", sc, str(150 if ctx.quick else 10000), "stress", executions)
+        collect(ctx, exe, "stress", sc, str(150 if ctx.quick else 3000), "stress", executions)
 
     ctx.evaluations = len(executions)
     distinct, mult = tracecheck.dedupe([e for _, _, e in executions])
